@@ -19,6 +19,9 @@ pub struct Adv {
     /// A second downloading connection D2 whose manager broadcasts are held back too: it can choke
     /// us or finish a piece before its task has seen that D completed the same piece.
     pub second_downloader: bool,
+    /// The manager may be busy once per history (Z ... G): commands queue up and are worked off in
+    /// arrival order without any task running in between.
+    pub busy: bool,
 }
 
 #[derive(Default, Clone)]
@@ -41,12 +44,15 @@ pub struct Mon {
     pub d2_outstanding: Vec<(u32, u32, u32)>,
     pub d2_scanned: usize,
     pub d2_choking: bool,
+    pub pause_used: bool,
+    /// Events that happened while the manager was busy (their commands are still queued).
+    pub queued: Vec<String>,
 }
 
 impl Scenario for Adv {
     type Mon = Mon;
     fn name(&self) -> String {
-        format!("advertise-{}-pre{:?}{}", self.pieces, self.preowned, if self.second_downloader { "-d2" } else { "" })
+        format!("advertise-{}-pre{:?}{}{}", self.pieces, self.preowned, if self.second_downloader { "-d2" } else { "" }, if self.busy { "-busy" } else { "" })
     }
     fn cfg(&self) -> WorldCfg {
         let mut d = peer_cfg(0, true);
@@ -82,6 +88,13 @@ impl Scenario for Adv {
         if mon.o[0].world_index.is_none() {
             out.push("A1".to_string());
         }
+        // the manager is busy for a while (once per history): commands of the tasks queue up and are
+        // then worked off in arrival order without any task running in between
+        if w.manager_paused {
+            out.push("G".to_string());
+        } else if self.busy && !mon.pause_used {
+            out.push("Z".to_string());
+        }
         if self.second_downloader && !w.peers[2].ended.get() {
             if !mon.d2_outstanding.is_empty() && !mon.d2_choking {
                 out.push("P2".to_string());
@@ -116,7 +129,17 @@ impl Scenario for Adv {
             return vec![Ev::Feed(0, refwire::encode(&Msg::Piece(r.0, r.1, w.t.pieces[r.0 as usize][r.1 as usize..(r.1 + r.2) as usize].to_vec())))];
         }
         if sym == "A1" {
-            return vec![Ev::AddPeer(peer_cfg(1, true))];
+            // while the manager is busy the new connection receives broadcasts directly (ungated):
+            // what matters there is what reaches its receiver before it resumes
+            let mut cfg = peer_cfg(1, true);
+            cfg.ungated = w.manager_paused;
+            return vec![Ev::AddPeer(cfg)];
+        }
+        if sym == "Z" {
+            return vec![Ev::PauseManager];
+        }
+        if sym == "G" {
+            return vec![Ev::ResumeManager];
         }
         match sym {
             "P2" => {
@@ -152,6 +175,8 @@ impl Scenario for Adv {
                     mon.d_outstanding.remove(0);
                 }
                 "A1" => mon.o[0].world_index = Some(w.peers.len() - 1),
+                "Z" => mon.pause_used = true,
+                "G" => {}
                 "P2" => {
                     mon.d2_outstanding.remove(0);
                 }
@@ -191,6 +216,14 @@ impl Scenario for Adv {
             }
             mon.d2_scanned = w.peers[2].msgs.len();
         }
+        if let Some(sym) = last {
+            if sym == "G" {
+                mon.queued.clear();
+            } else if w.manager_paused && sym != "Z" {
+                mon.queued.push(sym.to_string());
+            }
+        }
+        let known_before: Vec<usize> = mon.completed.clone();
         // completions in this step, from the manager's broadcasts
         for b in &w.broadcasts {
             if let BroadCmd::SendHave { piece_index } = b {
@@ -211,12 +244,28 @@ impl Scenario for Adv {
                     }
                 }
             }
+            if side.cfg.ungated {
+                // no gate: every announcement of this step reached the task's receiver directly
+                for b in &w.broadcasts {
+                    if let BroadCmd::SendHave { piece_index } = b {
+                        mon.o[j].released.push(*piece_index);
+                    }
+                }
+            }
             for m in &side.msgs[mon.o[j].scanned..] {
                 match m {
                     Msg::Bitfield(b) => {
                         let bits = refwire::bitfield_bits(b, self.pieces);
-                        if bits.as_ref() != Some(&stored) {
-                            return Some(("bitfield-differs-from-verified-set", format!("observer {}: bitfield {:?} but verified and stored pieces are {:?}", j + 1, bits, stored)));
+                        // "at that moment" = when the manager built it: every piece it had been told
+                        // about before this step is marked, nothing is marked that is not stored;
+                        // a piece whose completion the manager worked off in this very step (after a
+                        // busy phase) may be missing — it must then be announced (checked below)
+                        let ok = match &bits {
+                            Some(bits) => (0..self.pieces).all(|i| (!known_before.contains(&i) || bits[i]) && (!bits[i] || stored[i])),
+                            None => false,
+                        };
+                        if !ok {
+                            return Some(("bitfield-differs-from-verified-set", format!("observer {}: bitfield {:?}; verified and stored pieces are {:?}, the manager had been told about {:?} before this step", j + 1, bits, stored, known_before)));
                         }
                         mon.o[j].bitfield_seen = true;
                     }
@@ -231,7 +280,7 @@ impl Scenario for Adv {
             mon.o[j].scanned = side.msgs.len();
             // nothing held back is lost or reordered: once the observer does not choke us, every
             // completion released to its connection task has been announced, in completion order
-            if mon.o[j].handshaken && !mon.o[j].choking_us && !side.ended.get() {
+            if mon.o[j].handshaken && !mon.o[j].choking_us && !side.ended.get() && !w.manager_paused {
                 let haves: Vec<usize> = side.msgs.iter().filter_map(|m| if let Msg::Have(i) = m { Some(*i as usize) } else { None }).collect();
                 let mut it = haves.iter();
                 for r in &mon.o[j].released {
@@ -266,15 +315,15 @@ impl Scenario for Adv {
     fn key(&self, w: &World, mon: &Mon) -> String {
         let o: Vec<String> = mon.o.iter().map(|o| format!("{:?}/{}/{}/{:?}", o.world_index, o.handshaken, o.choking_us, o.released)).collect();
         let haves: Vec<Vec<u32>> = mon.o.iter().map(|o| o.world_index.map(|wi| w.peers[wi].msgs.iter().filter_map(|m| if let Msg::Have(i) = m { Some(*i) } else { None }).collect()).unwrap_or_default()).collect();
-        format!("{} d={:?} d2={:?}/{} o={:?} haves={:?} done={:?}", strip_counters(&w.default_key()), mon.d_outstanding, mon.d2_outstanding, mon.d2_choking, o, haves, mon.completed)
+        format!("{} d={:?} d2={:?}/{} o={:?} haves={:?} done={:?} busy={}/{} q={:?}", strip_counters(&w.default_key()), mon.d_outstanding, mon.d2_outstanding, mon.d2_choking, o, haves, mon.completed, w.manager_paused, mon.pause_used, mon.queued)
     }
 }
 
 pub fn scenarios(thorough: bool) -> Vec<(Adv, usize)> {
     if thorough {
-        vec![(Adv { pieces: 3, preowned: vec![], second_downloader: false }, 17), (Adv { pieces: 3, preowned: vec![1], second_downloader: false }, 15), (Adv { pieces: 4, preowned: vec![], second_downloader: false }, 14), (Adv { pieces: 3, preowned: vec![], second_downloader: true }, 9)]
+        vec![(Adv { pieces: 3, preowned: vec![], second_downloader: false, busy: false }, 17), (Adv { pieces: 3, preowned: vec![1], second_downloader: false, busy: false }, 15), (Adv { pieces: 4, preowned: vec![], second_downloader: false, busy: false }, 14), (Adv { pieces: 3, preowned: vec![], second_downloader: true, busy: false }, 9), (Adv { pieces: 3, preowned: vec![], second_downloader: false, busy: true }, 11)]
     } else {
-        vec![(Adv { pieces: 3, preowned: vec![], second_downloader: false }, 9), (Adv { pieces: 2, preowned: vec![], second_downloader: false }, 11), (Adv { pieces: 2, preowned: vec![], second_downloader: true }, 7)]
+        vec![(Adv { pieces: 3, preowned: vec![], second_downloader: false, busy: false }, 9), (Adv { pieces: 2, preowned: vec![], second_downloader: false, busy: false }, 11), (Adv { pieces: 2, preowned: vec![], second_downloader: true, busy: false }, 7), (Adv { pieces: 2, preowned: vec![], second_downloader: false, busy: true }, 8)]
     }
 }
 
